@@ -5,7 +5,7 @@
  bare  family : S { #[parent] inner: Inner } where Inner derives its own From<&T> / IntoExisting<T> (probes inside)
 """
 from .model import Instr, Field, Item, KINDS, FALLIBLE_NAME, TRAIT_SHORT
-from .rgen import NUM, rng_call, const_of, PRELUDE
+from .rgen import NUM, rng_call, const_of, rnd_expr, PRELUDE
 
 LEAVES = ["i8", "i16", "i32", "i64", "u8", "u16", "u32", "bool", "char"]
 
@@ -15,6 +15,7 @@ class Node:
         self.ty = ty
         self.leaves = []     # [dict(name, ty, s=SLeaf|None, ghost_k=None)]
         self.children = []   # [(field_name, Node)]
+        self.tuple = False   # leaf-only node declared as a tuple struct (leaves are addressed by index)
 
 
 def gen_tree(g, depth, maxdepth, root=False):
@@ -40,6 +41,9 @@ def walk(node, path=()):
 def type_defs(node, derive="#[derive(Clone, Debug, PartialEq, Default)]"):
     out = []
     for path, n in walk(node):
+        if n.tuple:
+            out.append(f"{derive}\npub struct {n.ty}(" + ", ".join(f"pub {l['ty']}" for l in n.leaves) + ");")
+            continue
         fs = [f"pub {l['name']}: {l['ty']}," for l in n.leaves] + [f"pub {fn}: {ch.ty}," for fn, ch in n.children]
         out.append(f"{derive}\npub struct {n.ty} {{ " + " ".join(fs) + " }")
     return "\n".join(out)
@@ -48,6 +52,8 @@ def type_defs(node, derive="#[derive(Clone, Debug, PartialEq, Default)]"):
 def tree_value(node, leaf_expr):
     """Rust expression constructing the tree; leaf_expr(path, leaf) -> expr"""
     def rec(n, path):
+        if n.tuple:
+            return f"{n.ty}(" + ", ".join(leaf_expr(path, l) for l in n.leaves) + ")"
         fs = [f"{l['name']}: {leaf_expr(path, l)}," for l in n.leaves] + [f"{fn}: {rec(ch, path + (fn,))}," for fn, ch in n.children]
         return f"{n.ty} {{ " + " ".join(fs) + " }"
     return rec(node, ())
@@ -123,16 +129,27 @@ def gen_child_case(g, cid, opts=None):
     fc.root = gen_tree(g, 0, r.choice([1, 1, 2, 2, 3, 4, 5]), root=True)
     fields = []
     taken = set()
+    # From-only sub-family: some leaf-only nested structs are tuple structs, their members addressed by index (`#[child(a.b)] #[from(1, expr)]`)
+    fc.from_only = (opts or {}).get("from_only", g.chance(0.2))
+    fc.exprs = fc.from_only or g.chance(0.3)
+    if fc.from_only:
+        for path, n in walk(fc.root):
+            if path and not n.children and n.leaves and g.chance(0.7):
+                n.tuple = True
+                for i, l in enumerate(n.leaves):
+                    l["name"] = i
     for path, n in walk(fc.root):
         for l in n.leaves:
             roll = r.random()
-            if roll < 0.15 and (path or len(n.leaves) > 1):
+            if roll < 0.15 and (path or len(n.leaves) > 1) and not n.tuple:
                 l["ghost_k"] = g.mark()     # counterpart-only leaf provided by struct-level #[ghosts(path@name: {..})]
                 continue
-            same = l["name"] not in taken and g.chance(0.4)
+            same = l["name"] not in taken and g.chance(0.4) and not n.tuple
             sname = l["name"] if same else f"l{g.mark()}"
             taken.add(sname)
-            f = dict(sname=sname, ty=l["ty"], path=path, leaf=l, rename=(sname != l["name"]))
+            f = dict(sname=sname, ty=l["ty"], path=path, leaf=l, rename=(sname != l["name"]), k_from=None, k_into=None)
+            if fc.exprs and g.chance(0.5):
+                f["k_from"], f["k_into"] = g.mark(), g.mark()
             fields.append(f)
     if not fields:
         return gen_child_case(g, cid, opts)
@@ -156,7 +173,8 @@ def render_child_module(fc, g, fallible, draws):
     r = g.r
     it = Item("struct", "S", shape="named", vis="pub ")
     names = []
-    todo = set(KINDS)
+    kinds = ["from_owned", "from_ref"] if fc.from_only else KINDS
+    todo = set(kinds)
     shorts = list(TRAIT_SHORT.items())
     r.shuffle(shorts)
     for sh, ks in shorts:
@@ -181,8 +199,14 @@ def render_child_module(fc, g, fallible, draws):
         at = []
         if f["path"]:
             at.append(Instr("child", "child", container=None, path=".".join(f["path"])))
-        if f["rename"]:
-            at.append(Instr("map", "map", container=None, member=f["leaf"]["name"], action=None))
+        member = f["leaf"]["name"] if f["rename"] else None
+        if f["k_from"] is not None:
+            # the same instruction names in both twins (C07 compares them)
+            at.append(Instr("from", "map", container=None, member=member, action=rnd_expr(f["ty"], f["k_from"], "~"), braced=bool(f["k_from"] % 2)))
+            if not fc.from_only:
+                at.append(Instr("into", "map", container=None, member=member, action=rnd_expr(f["ty"], f["k_into"], "~"), braced=bool(f["k_into"] % 2)))
+        elif f["rename"]:
+            at.append(Instr("map", "map", container=None, member=member, action=None))
         r.shuffle(at)
         it.fields.append(Field(f["sname"], f["ty"], at))
     if fc.s_ghost:
@@ -198,20 +222,22 @@ def render_child_module(fc, g, fallible, draws):
         if f is None:
             svals.append(f"{fld.name}: {const_of(fc.s_ghost['ty'], fc.s_ghost['k'])},")
         else:
-            svals.append(f"{fld.name}: t.{'.'.join(f['path'] + (f['leaf']['name'],))},")
+            x = f"t.{'.'.join(f['path'] + (str(f['leaf']['name']),))}"
+            svals.append(f"{fld.name}: {x if f['k_from'] is None else rnd_expr(f['ty'], f['k_from'], x)},")
     L.append(f"fn ref_from(t: &T) -> {'Result<S, super::Er>' if fallible else 'S'} {{ {wrap('S { ' + ' '.join(svals) + ' }')} }}")
 
     def into_leaf(path, l):
         if l["ghost_k"] is not None:
             return const_of(l["ty"], l["ghost_k"])
-        return f"s.{by_leaf[id(l)]['sname']}"
+        f = by_leaf[id(l)]
+        return f"s.{f['sname']}" if f["k_into"] is None else rnd_expr(f["ty"], f["k_into"], f"s.{f['sname']}")
     L.append(f"fn ref_into(s: &S, pre: &T) -> {'Result<T, super::Er>' if fallible else 'T'} {{ {wrap(tree_value(fc.root, into_leaf))} }}")
     tag = f"c{fc.cid}{'f' if fallible else 'i'}"
     D = ["pub fn run(log: &mut crate::rt::Log) {", f"    let mut r = crate::rt::Rng::new({fc.cid + 7000});", f"    for d in 0..{draws}usize {{"]
     D.append("        let t: T = " + tree_value(fc.root, lambda p, l: rng_call(l["ty"])) + ";")
     D.append("        let pre: T = " + tree_value(fc.root, lambda p, l: rng_call(l["ty"])) + ";")
     D.append("        let s: S = S { " + " ".join(f"{fld.name}: {rng_call(fld.ty)}," for fld in it.fields) + " };")
-    D += conv_driver(tag, fallible, "ref_from(&t)", "ref_into(&s, &pre)", "ref_into(&s, &pre)")
+    D += conv_driver(tag, fallible, "ref_from(&t)", "ref_into(&s, &pre)", "ref_into(&s, &pre)", kinds)
     D += ["    }", "}"]
     return "\n".join(L + D) + "\n", derive_src
 
